@@ -171,6 +171,63 @@ func (g s1Gen) s2Query() string {
 	return "match " + a + "-" + r + "->" + b + where + " return " + strings.Join(items, ", ")
 }
 
+// countQuery: stage S1c — MATCH (n[:K…]) [WHERE p] RETURN count(n) [AS c].
+func (g s1Gen) countQuery() string {
+	var b strings.Builder
+	b.WriteString("match (n" + Pick(g.rng, []string{"", "", ":NodeKind1", ":NodeKind2:NodeKind1", ":NodeKind2"}) + ")")
+	if g.rng.Chance(1, 2) {
+		b.WriteString(" where " + g.pred(2, 0))
+	}
+	b.WriteString(" return count(n)")
+	if g.rng.Chance(1, 3) {
+		b.WriteString(" as c")
+	}
+	return b.String()
+}
+
+// chainQuery: stage S2c — a chain of two or three directed fixed hops, kinds optional, no WHERE, every variable read by the RETURN.
+func (g s1Gen) chainQuery() string {
+	k := 2 + g.rng.Intn(2)
+	nodes := []string{"a", "b", "c", "d"}[:k+1]
+	rels := []string{"r", "q", "s"}[:k]
+	var b strings.Builder
+	b.WriteString("match ")
+	for i := 0; i <= k; i++ {
+		b.WriteString("(" + nodes[i] + Pick(g.rng, []string{"", "", "", ":NodeKind1", ":NodeKind2", ":NodeKind2:NodeKind1"}) + ")")
+		if i < k {
+			b.WriteString("-[" + rels[i] + Pick(g.rng, []string{"", "", ":EdgeKind1", ":EdgeKind2", ":EdgeKind1|EdgeKind2"}) + "]->")
+		}
+	}
+	mk := func(v string) string {
+		switch g.rng.Intn(3) {
+		case 0:
+			return v
+		case 1:
+			return "id(" + v + ")"
+		default:
+			return v + "." + Pick(g.rng, []string{"name", "a", "w", "zz"})
+		}
+	}
+	var items []string
+	for _, v := range append(append([]string{}, nodes...), rels...) {
+		items = append(items, mk(v))
+	}
+	for i := g.rng.Intn(3); i > 0; i-- {
+		items = append(items, mk(Pick(g.rng, append(append([]string{}, nodes...), rels...))))
+	}
+	for i := range items {
+		j := g.rng.Intn(i + 1)
+		items[i], items[j] = items[j], items[i]
+	}
+	for i := range items {
+		if g.rng.Chance(1, 3) {
+			items[i] += fmt.Sprintf(" as c%d", i)
+		}
+	}
+	b.WriteString(" return " + strings.Join(items, ", "))
+	return b.String()
+}
+
 func (c01TieSuite) Gen(rng *Rng, tier string, w *bufio.Writer, stats *Stats) {
 	n := 300
 	if tier == "thorough" {
@@ -184,5 +241,13 @@ func (c01TieSuite) Gen(rng *Rng, tier string, w *bufio.Writer, stats *Stats) {
 	for i := 0; i < n/2; i++ {
 		fmt.Fprintf(w, "# case %d s2b\nq %s %d 4 0 0\n", n+i+1, jsonQuote(g.s2Query()), rng.Intn(1<<20))
 		stats.Inc("s2b_generated")
+	}
+	for i := 0; i < n/3; i++ {
+		fmt.Fprintf(w, "# case %d s2c\nq %s %d 4 0 0\n", n+n/2+i+1, jsonQuote(g.chainQuery()), rng.Intn(1<<20))
+		stats.Inc("s2c_generated")
+	}
+	for i := 0; i < n/6; i++ {
+		fmt.Fprintf(w, "# case %d s1c\nq %s %d 4 0 0\n", n+n/2+n/3+i+1, jsonQuote(g.countQuery()), rng.Intn(1<<20))
+		stats.Inc("s1c_generated")
 	}
 }
